@@ -2991,6 +2991,7 @@ class TLSConnection(TLSRecordLayer):
 
         secret = bytearray(prf_size)
 
+        selected_group = None
         share = clientHello.getExtension(ExtensionType.key_share)
         if share:
             share_ids = [i.group for i in share.client_shares]
@@ -3099,6 +3100,18 @@ class TLSConnection(TLSRecordLayer):
                 "psk_dhe_ke" in settings.psk_modes) or\
                 (psk is None and privateKey) or\
                 (psk is None and privateKey is None and dc_sig_scheme):
+            # a client that offered psk_ke only may have left out what
+            # a certificate based handshake needs
+            if selected_group is None:
+                for result in self._sendError(
+                        AlertDescription.missing_extension,
+                        "Missing key_share extension"):
+                    yield result
+            if psk is None and scheme is None and not dc_sig_scheme:
+                for result in self._sendError(
+                        AlertDescription.missing_extension,
+                        "Missing signature_algorithms extension"):
+                    yield result
             self.ecdhCurve = selected_group
             kex = self._getKEX(selected_group, version)
             if selected_group in GroupName.allKEM:
